@@ -1492,6 +1492,15 @@ impl Server {
             };
 
             self.query(&reset_string).await?;
+
+            // Only the server's answer tells if that worked: the statements run as one transaction,
+            // and a statement_timeout the client left behind, or a cancel request that arrives late,
+            // cancels them like any other query - the settings are then still in force.
+            if self.query_failed {
+                self.mark_bad("the server refused the clean-up");
+                return Ok(());
+            }
+
             self.cleanup_state.reset();
         }
 
